@@ -57,6 +57,7 @@ type faultStore struct {
 	wrap     int // error flavour of the store: 0 bare sentinels, 1 ierrors.Wrap, 2 fmt.Errorf("%w") twice
 	dirty    bool // a failing Set / Delete takes effect before it reports the failure
 	dirtyHit bool // ... and that happened in the current operation
+	partialHit bool // a bulk deletion (DeletePrefix / Clear) failed part-way in the current operation: kvAfter entries are gone
 }
 
 // we returns the error the way this store flavour reports it.  A KVStore may wrap its sentinel errors (callers are
@@ -93,7 +94,7 @@ func (f *faultStore) setFlavour(name string) string {
 
 func (f *faultStore) begin(failAt map[int]bool, kvAfter int) {
 	f.calls, f.failAt, f.kvAfter = 0, failAt, kvAfter
-	f.dirtyHit = false
+	f.dirtyHit, f.partialHit = false, false
 }
 
 // dirty failures: a failing Set / Delete of this store takes effect before it reports the failure
@@ -197,22 +198,42 @@ func (f *faultStore) IterateKeys(prefix kvstore.KeyPrefix, consumer kvstore.Iter
 	return f.we(err)
 }
 
-func (f *faultStore) DeletePrefix(prefix kvstore.KeyPrefix) error {
-	if f.hit("P") {
+// bulk: a bulk deletion over the keys with the given prefix.  With kvAfter = n >= 0 and more than n such keys the store
+// fails part-way: the first n of them (in key order) are gone, then the failure is reported.
+func (f *faultStore) bulk(letter string, prefix kvstore.KeyPrefix, full func() error) error {
+	if f.hit(letter) {
 		return f.we(errKV)
 	}
-	*f.trace = append(*f.trace, "P")
+	if f.kvAfter >= 0 {
+		var keys []string
+		f.KVStore.IterateKeys(prefix, func(k kvstore.Key) bool {
+			keys = append(keys, string(k))
 
-	return f.we(f.KVStore.DeletePrefix(prefix))
+			return true
+		})
+		sort.Strings(keys)
+		if len(keys) > f.kvAfter {
+			for _, k := range keys[:f.kvAfter] {
+				f.KVStore.Delete([]byte(k))
+			}
+			*f.trace = append(*f.trace, letter+"!")
+			*f.anyFail = true
+			f.partialHit = true
+
+			return f.we(errKV)
+		}
+	}
+	*f.trace = append(*f.trace, letter)
+
+	return f.we(full())
+}
+
+func (f *faultStore) DeletePrefix(prefix kvstore.KeyPrefix) error {
+	return f.bulk("P", prefix, func() error { return f.KVStore.DeletePrefix(prefix) })
 }
 
 func (f *faultStore) Clear() error {
-	if f.hit("Z") {
-		return f.we(errKV)
-	}
-	*f.trace = append(*f.trace, "Z")
-
-	return f.we(f.KVStore.Clear())
+	return f.bulk("Z", kvstore.EmptyPrefix, func() error { return f.KVStore.Clear() })
 }
 
 func (f *faultStore) Delete(k kvstore.Key) error {
@@ -1354,23 +1375,38 @@ func (w *tsWorld) exec(r *hx.Run, f []string) string {
 				r.Fail("store-iterate", fmt.Sprintf("%s on %s returned %q, iterating the raw keys under the codec up to the first decode error gives %q", op, before, out, expect),
 					map[string]string{"oracle": "iterate-differs", "api": api, "faults": f[4]})
 			}
-		case "delp":
-			prefix := hx.UnHex(f[1])
-			err = w.ts.DeletePrefix(prefix)
-			if err == nil {
-				out = "ok"
-				for k := range w.mirror {
-					if strings.HasPrefix(k, string(prefix)) {
-						delete(w.mirror, k)
-					}
+		case "delp", "clear":
+			var prefix []byte
+			if f[0] == "delp" {
+				prefix = hx.UnHex(f[1])
+				err = w.ts.DeletePrefix(prefix)
+			} else {
+				err = w.ts.Clear()
+			}
+			// the oracle's own reading of a bulk deletion that may fail part-way: with kvAfter = n and more than n keys
+			// under the prefix the first n (in key order) are gone and the failure is reported; otherwise all are gone
+			var under []string
+			for k := range w.mirror {
+				if strings.HasPrefix(k, string(prefix)) {
+					under = append(under, k)
 				}
 			}
-			expect = "ok"
-		case "clear":
-			err = w.ts.Clear()
-			if err == nil {
+			sort.Strings(under)
+			partial := !flt.kv1 && flt.kvAfter >= 0 && len(under) > flt.kvAfter
+			switch {
+			case err == nil:
 				out = "ok"
-				w.mirror = map[string][]byte{}
+				for _, k := range under {
+					delete(w.mirror, k)
+				}
+				if partial {
+					r.Fail("failure-reported", fmt.Sprintf("%s: the store's bulk deletion failed after %d of %d entries but the method returned ok", op, flt.kvAfter, len(under)),
+						map[string]string{"oracle": "swallowed-error", "api": api, "failed_call": "bulk-partial"})
+				}
+			case partial:
+				for _, k := range under[:flt.kvAfter] {
+					delete(w.mirror, k)
+				}
 			}
 			expect = "ok"
 		default:
@@ -1402,7 +1438,10 @@ func (w *tsWorld) exec(r *hx.Run, f []string) string {
 		r.Fail("failure-reported", fmt.Sprintf("%s: the failed call was %s but %s was returned", op, w.firstErr, out),
 			map[string]string{"oracle": "wrong-error", "api": api})
 	}
-	if (w.anyFail || isErr) && after != before {
+	if w.fs.partialHit {
+		r.Count("ts:bulk-partial-failures")
+	}
+	if (w.anyFail || isErr) && after != before && !w.fs.partialHit {
 		r.Fail("failure-atomic", fmt.Sprintf("%s failed (%s) but the store changed %s -> %s", op, out, before, after),
 			map[string]string{"oracle": "store-changed-on-failure", "api": api, "calls": traceStr(w.trace)})
 	}
